@@ -374,7 +374,9 @@ pub fn run_scenario(sc: &Value, dir: &str, idx: usize) -> Vec<Value> {
                     let p = e["s"].as_u64().unwrap_or(1) as usize;
                     sh.arm_pend[c].store(true, Ordering::SeqCst);
                     let a = client_open(&addrs[p - 1]);
-                    thread::sleep(Duration::from_millis(80));
+                    // B connects once A's call has made the services pending (the worker is then inside its slow sweep)
+                    wait_until(Duration::from_secs(3), || sh.pend[c].load(Ordering::SeqCst));
+                    thread::sleep(Duration::from_millis(30));
                     let b = client_open(&addrs[p - 1]);
                     let by_a = a.and_then(|mut s| s.read_tag(2500)).unwrap_or(0);
                     out.push(json!({"ev": "conn", "s": p, "by": by_a}));
